@@ -348,4 +348,8 @@ def run(P, R, tier):
     # every complete line that was read is dispatched in this wake-up: none dropped, none left waiting for unrelated traffic
     from . import c03 as _c03
     _c03.reader_drains(P, R, 'C07.MPT.5')
+    # when a client's wait ends does not depend on which other clients are waiting: each request has a timer of its own
+    from . import c03 as _c03t
+    from ..report import Remap as _Remap
+    _c03t.timer(P, _Remap(R, {'C03.MPT.1': 'C07.TMR.2'}, keys=('timer-created',)))
     return EXPLANATION, ASSUMPTIONS
